@@ -372,20 +372,31 @@ def _classify_insertion(ctx, f, cfg, n: Node, c: ast.Call, cname, other, Xn, Gn,
     return None, "no path condition shows the container is empty and no curvature test guards this insertion"
 
 
-@rule("MAXLEN", min_instances=0)
+@rule("MAXLEN", min_instances=1)
 def rule_maxlen(ctx: Ctx) -> List[Ob]:
     """a history container built with a bound evicts silently: if maxlen= is used for the point / gradient deques it must
     be exactly maxcor + 1 (one more point than correction pairs) -- a smaller bound caps the memory below the requested size
     for the rest of the run, a larger one lets it exceed it"""
     obs: List[Ob] = []
     from ..flow import Expander
+
+    def sites(node):
+        return [s for s in walk_no_nested(node) if isinstance(s, (ast.Assign, ast.AnnAssign)) and isinstance(getattr(s, "value", None), ast.Call) and
+                (dotted(s.value.func) or "").split(".")[-1] in ("deque", "Deque") and kw(s.value, "maxlen") is not None]
+    # the expected number of sites on a healthy tree is zero: a positive control keeps the matcher honest on every run
+    ctl = ast.parse("def g(x, maxcor):\n    X = Deque([x], maxlen=maxcor)\n    G: Deque = deque([x], maxlen=maxcor + 1)\n").body[0]
+    found = sites(ctl)
+    judged = [canon_in(kw(s.value, "maxlen"), "maxcor + 1") for s in found]
+    anchor = ctx.repo.func("main.minimize_lbfgsb")
+    obs.append(ob("MAXLEN", "positive control: the matcher sees bounded deques and tells maxcor from maxcor + 1", anchor, anchor.node,
+                  judged == [False, True], f"control fragment: {len(found)} bounded constructor(s), judged {judged}", False,
+                  construct="control: Deque([x], maxlen=maxcor) / deque([x], maxlen=maxcor + 1)"))
     for q, f in ctx.repo.funcs.items():
         if f.module.name not in ("main", "bfgsmats") or "maxcor" not in f.params and f.name not in ("minimize_lbfgsb",):
             continue
         ex = Expander(ctx, f)
-        for s in walk_no_nested(f.node):
-            if isinstance(s, (ast.Assign, ast.AnnAssign)) and isinstance(getattr(s, "value", None), ast.Call) and \
-                    (dotted(s.value.func) or "").split(".")[-1] in ("deque", "Deque") and kw(s.value, "maxlen") is not None:
+        for s in sites(f.node):
+            if True:
                 m_ = ex.expand_at(s, kw(s.value, "maxlen"))
                 ok = canon_in(m_, "maxcor + 1")
                 obs.append(ob("MAXLEN", "a bounded history deque is bounded by maxcor + 1", f, s, ok,
